@@ -27,6 +27,9 @@ def run(ctx):
             if e["e"] == "enc":
                 ctx.signatures.add(("enc", min(len(e["bytes"]), 300), e["term"]["k"]))
                 continue
+            if e["e"] == "tval":
+                ctx.signatures.add(("tval", e["type"], len(e["bytes"]), e["roundtrip"]))
+                continue
             ctx.signatures.add((e["src"], e["ok"], e["splitKind"], min(e["n"], 60), sum(1 for t in e["typed"].values() if t["ok"])))
             if len(ctx.samples) < 4 and e["n"] < 12:
                 ctx.samples.append({k: e[k] for k in ("src", "in", "ok", "term", "splitKind")})
@@ -38,7 +41,7 @@ def run(ctx):
         ev = vlib.read_ndjson(trace, limit=line)[-1] if line else {}
         meta = os.path.join(ctx.work, "meta.json")
         json.dump({"seed": ctx.seed, "tier": ctx.tier, "line": line, "invariant": v.violated}, open(meta, "w"))
-        inp = ev.get("in", [])
+        inp = ev.get("in", ev.get("bytes", []))
         ctx.violation("RLPTrace invariant %s false at trace line %s: input %s (%d bytes) ok=%s streamOk=%s splitOk=%s panic=%r alloc=%s typed-ok=%s" % (
             v.violated, line, bytes(inp[:40]).hex(), len(inp), ev.get("ok"), ev.get("streamOk"), ev.get("splitOk"), ev.get("panic"), ev.get("alloc"),
             [k for k, t in ev.get("typed", {}).items() if t["ok"]]), ctx.save_replay("trace", [trace, meta]))
